@@ -52,7 +52,7 @@ findings:
 
 **Behaviour-preserving edits as a test of the rules.**  Two probe tools rewrite the functions the rules read, on the syntax
 tree, and run the checks on the in-memory overlay; any report is a false alarm by construction.
-`tools/rename_probe.py` renames every local of 67 functions; `tools/refactor_probe.py` re-emits the module with
+`tools/rename_probe.py` renames every local of 66 functions; `tools/refactor_probe.py` re-emits the module with
 `ast.unparse` (formatting, comments and line numbers change), inverts every `if c: A else: B` to `if not c: B else: A`,
 swaps the sides of `==`/`!=`, removes the `else` after a body that always leaves, adds such an `else`, inserts statements
 without effect at the start of the function and of every loop body, and extracts the value of `return f(...)` into a local.
@@ -73,7 +73,7 @@ form before any rule reads it (`sa/model.py`):
 `baselines/skips.json` is read from the unchanged tree under the same canonical form.  What is *not* canonicalised: the
 inversion of an `if`/`else` whose branches both leave and neither (or both) report an error, and the inversion of a guard
 clause together with the rest of its block; renaming a function the rules are anchored in ends the run as analysis-broken
-(exit 2), not as a violation.  The last probe runs are recorded at the end of this section.
+(exit 2), not as a violation.  Last runs (2026-09-22, on /repo HEAD bb1b1454): rename probe 66/66 functions silent; refactor probe silent in all seven modes (identity, invert, swapeq, deelse, addelse, noise, extract) on all 66 functions after the corrections listed here (the last corrections: asserts are no-ops for the C04 interpreter, C12 and ERR4 follow a returned local to its assignment, C18 REP counts uses per definition).
 """
 
 OBSERVED = """
